@@ -396,6 +396,24 @@ theorem cache_traces_on_miss_only (f : Fn) (c : JitCache) (h : Heap) (args : Lis
 
 /-! ## cached_partial -/
 
+/-- **one index per object.**  The `ref_index` built by `flatten` over a tuple of arguments (any sharing inside or across
+arguments: tied Variables, the same Variable twice in a list, shared sub-nodes) registers every object exactly once
+(`Nodup`), and the graphdefs carry exactly one definition per registered object, numbered `0, 1, …` in registration
+order; a second visit is a `NodeRef`.  `cached_partial`'s `StaticCache.new_ref_index` (built by `graph.fingerprint`) has
+to be this very table for the cached graphdef to be usable; the model has no second table -- it uses `flatten`'s. -/
+theorem flatten_one_index_per_object (h : Heap) (args : List PVal) (gds : List GDef) (fss : List FlatState) (idx : RefIndex)
+    (hf : flattenRoots h args [] = .ok (gds, fss, idx)) :
+    idx.Nodup ∧ defIdxRoots gds = List.range' 0 idx.length := by
+  obtain ⟨_, _, _, _, Gd, _, _, _⟩ := inner_copy true hf
+  obtain ⟨_, hd⟩ := flatRoots_defIdx (flatRoots_of_flattenRoots h args [] gds fss idx hf)
+  exact ⟨Gd.nodup, by simpa using hd⟩
+
+/-- tied weights `m.emb = m.head = Param`, then `m.scale`: three attributes, two objects after the root, indices 0, 1, 2 -/
+example : (flattenRoots [.node "A" [(.str "emb", .ref 1), (.str "head", .ref 1), (.str "scale", .ref 2)],
+      .var ["Param"] 1 [], .var ["Param"] 10 []] [.ref 0] []).toOption.map (fun r => (r.2.2, defIdxRoots r.1)) =
+    some ([0, 1, 2], [0, 1, 2]) := by decide
+
+
 /-- **`cached_partial` detects structure changes and otherwise behaves as `jit`**: an accepted call returns what the
 `jit` call returns; a call whose final graphdefs of the cached arguments differ from
 `graphdef.with_same_outer_index()` is rejected with `cacheMutated` (the first `ncached` arguments are the cached ones,\nthe others are passed at each call) -/
